@@ -8,5 +8,7 @@ for f in *.tla; do
 done
 /venv/bin/python -c "import sys; sys.path.insert(0,'/repo'); import odml, lxml, yaml, rdflib; assert odml.__file__.startswith('/repo/'), odml.__file__" || rc=1
 mkdir -p ../build ../evidence ../replays
+# the binding demonstrates itself: corrupted observations must be rejected by the judges
+if [ $rc -eq 0 ]; then (cd .. && ./check selftest) || rc=1; fi
 [ $rc -eq 0 ] && echo "setup ok"
 exit $rc
